@@ -86,6 +86,7 @@ def answerCore (fs : List (String × String)) : E String := do
             for a in [0:nb.k] do
               if !(fabs ((heat[i]!)[a]! - (H.data[i]!)[a]!) ≤ tolPow 36 * fabs ((H.data[i]!)[a]!) + tolPow 180) then
                 throw "CONTRACT:exp-contract"
+              if ((heat[i]!)[a]!).m ≤ 0 then throw "SKIP:heat-underflow"
           let Dg := Laplacian.degreesD nb.f H.get
           let L := Laplacian.laplacianLD nb.f H.get
           let pr := lppProblemD L.get Dg.get F
